@@ -405,6 +405,21 @@ def c10_lev_indef(ctx, case):
     except ValueError:
         raised = True
     ctx.check(raised, "LEVINSON did not raise for an indefinite sequence (first non-positive error at step %d of %d)" % (j + 1, p))
+    # the flag given explicitly, in the forms a caller computes it: "singularity not allowed" must raise whatever false value says so,
+    # "allowed" must not raise whatever true value says so
+    for flag in (False, 0, np.bool_(False)):
+        raised = False
+        try:
+            spectrum.LEVINSON(arg, allow_singularity=flag)
+        except ValueError:
+            raised = True
+        ctx.check(raised, "LEVINSON(allow_singularity=%r) did not raise for an indefinite sequence (step %d of %d)" % (flag, j + 1, p),
+                  sig={"clause": "flag-form"})
+    for flag in (1, np.bool_(True)):
+        try:
+            spectrum.LEVINSON(arg, allow_singularity=flag)
+        except ValueError:
+            ctx.fail("LEVINSON(allow_singularity=%r) raised although singularity is allowed" % (flag,), sig={"clause": "flag-form"})
     # order q
     raised = False
     out = None
